@@ -126,6 +126,9 @@ DocOf(d) ==
       [] d = "D8" -> << Stream("-", Cr("name", "Zz"), << Str("s17", 18) >>, "t12", 23),
                         Stream("-", Cr("arr", "Identity"), << Str("s18", 20) >>, "t13", 32),
                         Dict("-", << Str("s19", 16) >>) >>
+      \* a stream whose /Length is a reference to the integer object that follows it (il: read by the harness only)
+      [] d = "D9" -> << [Stream("-", NoCrypt, <<>>, "t15", 100) EXCEPT !.mem = <<>>] @@ [il |-> TRUE], Other,
+                        [Stream("-", Cr("name", "F2"), << Str("s20", 16) >>, "t16", 33) EXCEPT !.mem = <<>>] @@ [il |-> TRUE], Other >>
       \* loaded from a file with an xref stream, no object streams
       [] d = "D6" -> << Dict("-", << Str("m4", 22) >>),
                         Stream("-", NoCrypt, << Str("s13", 16) >>, "t10", 19),
@@ -137,7 +140,8 @@ ObjJson(o) ==
       [] o.k = "arr"    -> [k |-> "arr", v |-> [i \in DOMAIN o.v |-> ObjJson(o.v[i])]]
       [] o.k = "dict"   -> [k |-> "dict", typ |-> o.typ, v |-> [i \in DOMAIN o.v |-> ObjJson(o.v[i])]]
       [] o.k = "stream" -> [k |-> "stream", typ |-> o.typ, crypt |-> o.crypt, d |-> [i \in DOMAIN o.d |-> ObjJson(o.d[i])],
-                            pid |-> o.pl.pid, len |-> o.pl.n0, mem |-> [x \in DOMAIN o.mem |-> o.mem[x].pos]]
+                            pid |-> o.pl.pid, len |-> o.pl.n0, mem |-> [x \in DOMAIN o.mem |-> o.mem[x].pos],
+                            il |-> IF "il" \in DOMAIN o THEN o.il ELSE FALSE]
       [] OTHER          -> [k |-> "other"]
 
 ASSUME \A d \in DocIds : PrintT(<<"DOC", ToJson([dn |-> d, objs |-> [i \in DOMAIN DocOf(d) |-> ObjJson(DocOf(d)[i])]])>>)
@@ -153,6 +157,8 @@ AllKnown == {"owner.R234.key", "streamdict.string", "pw.gt127.R56", "crypt.dparr
              "objstm.member.resurrected", "crypt.indirect"}
 \* documents in the state a loader leaves them in; the caller may edit these objects of them (each once) while unencrypted
 FileDocs == {"D5", "D6"}
+\* (documents explored with one configuration per revision class only)
+FewCfgDocs == FileDocs \cup {"D9"}
 EditPos(d) == IF d = "D5" THEN {1, 3} ELSE IF d = "D6" THEN {1} ELSE {}
 
 -----------------------------------------------------------------------------
@@ -161,7 +167,7 @@ EditPos(d) == IF d = "D5" THEN {1, 3} ELSE IF d = "D6" THEN {1} ELSE {}
 \* (the loaded-from-file documents, whose edits multiply the states, also with one configuration per revision class)
 Rep(b) == b.em /\ b.stmf # "Identity" /\ b.strf # "Identity" /\ b.klen \in {40, 128, 256} /\ (b.V = 4 => b.cf[1][2] = b.cf[2][2]) /\ (b.cf # <<>> => b.cf[1][2] # "Identity")
 Combo(b, p, d) ==
-    Prune => \/ p = <<"A", "B">> /\ (d \in FileDocs => Rep(b))
+    Prune => \/ p = <<"A", "B">> /\ (d \in FewCfgDocs => Rep(b))
              \/ d = "D1" /\ Rep(b)
 
 \* a document protected with V 4 / 5 (per-stream overrides: D2), decrypted, and protected again with V 2
